@@ -4,4 +4,5 @@
 hydro_lang::setup!();
 
 pub mod atomics;
+pub mod paxos_gen;
 pub mod slices;
